@@ -3,22 +3,24 @@ import AnonModel.Model.Store
 /-!
 # C18: the object-store functions `Model/Store.lean` models micro-step by micro-step are the ones in `/repo` now
 
-`Gen/StoreSrc.lean` holds the bodies of `ObjectHandle::{create, load, remove}` (`src/ffi/object.rs`) and of `next()`
+`Gen/StoreSrc.lean` holds the bodies of `ObjectHandle::{create, load, opt_load, remove}` (`src/ffi/object.rs`) and of `next()`
 (`new_handle_type!`, `src/utils/macros.rs`) with whitespace and comments removed, regenerated on every run. The step
 machine of `Model/Store.lean` was written against exactly these bodies: `next` = one atomic fetch-add whose *result* is
 the handle, `create` = `next` then one locked insert, `load` = one locked get + clone, `remove` = one locked remove
-(blocking `lock`, not `try_lock`). A rewrite breaks the equality even when the behaviour is unchanged; the check then
+(blocking `lock`, not `try_lock`), `opt_load` = `load` for every handle but 0 (a freed handle is an error in an optional
+argument position too). A rewrite breaks the equality even when the behaviour is unchanged; the check then
 looks for a history the model rejects (creation bursts, free/get races) and reports either way.
 -/
 namespace AnonModel.GenConsts
 open AnonModel.Gen
 
-/-- the four functions behind handle allocation, lookup and removal -/
+/-- the five functions behind handle allocation, lookup (required and optional arguments) and removal -/
 theorem C18_store_sources_unchanged :
     storeSrc_next = "$newtype($counter.fetch_add(1,std::sync::atomic::Ordering::SeqCst)+1)" ∧
     storeSrc_create = "lethandle=Self::next();FFI_OBJECTS.lock().map_err(|_|err_msg!(\"Errorlockingobjectstore\"))?.insert(handle,AnoncredsObject::new(value));Ok(handle)" ∧
     storeSrc_load = "FFI_OBJECTS.lock().map_err(|_|err_msg!(\"Errorlockingobjectstore\"))?.get(&self).cloned().ok_or_else(||err_msg!(\"Invalidobjecthandle\"))" ∧
-    storeSrc_remove = "FFI_OBJECTS.lock().map_err(|_|err_msg!(\"Errorlockingobjectstore\"))?.remove(&self).ok_or_else(||err_msg!(\"Invalidobjecthandle\"))" := by
-  refine ⟨?_, ?_, ?_, ?_⟩ <;> rfl
+    storeSrc_remove = "FFI_OBJECTS.lock().map_err(|_|err_msg!(\"Errorlockingobjectstore\"))?.remove(&self).ok_or_else(||err_msg!(\"Invalidobjecthandle\"))" ∧
+    storeSrc_opt_load = "ifself.0==0{Ok(None)}else{Some(FFI_OBJECTS.lock().map_err(|_|err_msg!(\"Errorlockingobjectstore\"))?.get(&self).cloned().ok_or_else(||err_msg!(\"Invalidobjecthandle\")),).transpose()}" := by
+  refine ⟨?_, ?_, ?_, ?_, ?_⟩ <;> rfl
 
 end AnonModel.GenConsts
